@@ -297,3 +297,55 @@ func VerifC05_MetadataDuringShutdownKeepsTopics() {
 		verifrt.Reach("snapshot-after-topic-close", len(after.Topics) == 1)
 	})
 }
+
+// Topic close while its pump is busy: messages still in the topic queue when shutdown is
+// requested end up, byte-identical and exactly once, in the topic's or in a channel's disk queue -
+// whichever side of the pump they are on when it stops (every interleaving within the preemption
+// bound; the pump is stopped BEFORE the channels are closed, a message handed to an already
+// closed channel would be dropped).
+func VerifC05_TopicCloseWithBusyPump() {
+	o := verifOpts()
+	o.MemQueueSize = 2
+	n := verifShellNSQD(o)
+	verifrt.StubNative("(*github.com/nsqio/nsq/nsqd.NSQD).Notify", verifNotifyNop)
+	verifrt.Preemptions(1)
+	var t *Topic
+	var ch *Channel
+	var msgs []*Message
+	k := verifrt.Choice("queued", 2) + 1
+	verifrt.Atomic(func() {
+		verifConcreteIDs, verifIDSeq = true, 0
+		t = NewTopic("t", n, func(*Topic) {})
+		ch = t.GetChannel("ch")
+		if !verifrt.Symbolic() {
+			t.backend.Close()
+			t.backend = &verifBackend{}
+			ch.backend.Close()
+			ch.backend = &verifBackend{}
+		}
+		for i := 0; i < k; i++ {
+			m := verifMsg("q", 1)
+			m.Body[0] = byte('a' + i)
+			msgs = append(msgs, m)
+			t.PutMessage(m)
+		}
+		t.Start() // the pump will begin moving the backlog when it next runs
+	})
+	err := t.Close()
+	verifrt.Join()
+	verifrt.Assert(err == nil, "topic-close-succeeds")
+	tb, cb := t.backend.(*verifBackend), ch.backend.(*verifBackend)
+	for _, m := range msgs {
+		found := 0
+		for _, raw := range append(append([][]byte{}, tb.items...), cb.items...) {
+			d, derr := decodeMessage(raw)
+			if derr == nil && d.ID == m.ID {
+				found++
+				verifrt.Assert(bytes.Equal(d.Body, m.Body), "flushed-message-byte-identical")
+			}
+		}
+		verifrt.Assert(found == 1, "every-queued-message-is-on-disk-exactly-once-after-close")
+	}
+	verifrt.Reach("pump-moved-some-before-the-close", len(cb.items) > 0)
+	verifrt.Reach("some-flushed-by-the-topic", len(tb.items) > 0)
+}
